@@ -71,6 +71,7 @@ const (
 // ---- model -----------------------------------------------------------------
 
 type leaf struct {
+	atomic       bool // an atomic container: ONE leaf stored at its prefix, updated by Atomic notifications
 	path         []string
 	key          string
 	exists       bool
@@ -92,12 +93,14 @@ const (
 	kUpd = iota
 	kMulti
 	kDel
+	kAtomic // Atomic notification for a container prefix (leaves[0]), nmem member updates
 )
 
 type wop struct {
 	kind   int
 	leaves []int    // kUpd: one leaf, kMulti: several distinct leaves
 	del    []string // kDel: path (a leaf or a branch)
+	nmem   int      // kAtomic: number of member updates
 	split  bool     // kUpd: first element carried in the prefix
 	yield  bool
 }
@@ -236,6 +239,8 @@ type trial struct {
 
 	lastGen int // generation of the last sentinels written
 
+	atomicWritten int64
+
 	tick        int64    // logical clock (mode joinrace)
 	activeWalks int32    // joiners between subscribe.walk.begin and subscribe.walk.end
 	pendingRegs int32    // joiners registered whose walk has not reached its first insert
@@ -311,6 +316,19 @@ func newTrial(r *vlib.Run, mode string, num int, rng *rand.Rand, scale int) *tri
 		t.leaves = append(t.leaves, l)
 		t.byKey[l.key] = l
 	}
+	// Atomic containers: each is one leaf at depth 2 (prefix <branch>/c<i>), its
+	// members live below it. They follow the D scalar leaves in t.leaves.
+	nC := rng.Intn(3)
+	if mode == "stall" {
+		nC = 1 + rng.Intn(3)
+	}
+	altScalar := rng.Intn(3) == 0 // sometimes a scalar is written at a container's own path
+	for i := 0; i < nC; i++ {
+		l := newLeaf([]string{branches[rng.Intn(2)], fmt.Sprintf("c%d", i)})
+		l.atomic = true
+		t.leaves = append(t.leaves, l)
+		t.byKey[l.key] = l
+	}
 	for g := 0; g < 2; g++ {
 		for bi, b := range branches {
 			l := newLeaf([]string{b, []string{"zz", "zz2"}[g]})
@@ -337,6 +355,22 @@ func newTrial(r *vlib.Run, mode string, num int, rng *rand.Rand, scale int) *tri
 	}
 	for done := 0; done < t.K; {
 		op := wop{kind: kUpd, yield: rng.Intn(16) == 0}
+		if nC > 0 && rng.Intn(3) == 0 {
+			// Repeated updates of a container (the first one is the hot one).
+			ci := 0
+			if rng.Intn(2) == 0 {
+				ci = rng.Intn(nC)
+			}
+			op.leaves = []int{t.D + ci}
+			if altScalar && rng.Intn(4) == 0 {
+				op.split = rng.Intn(4) == 0 // a scalar replacing the group in place
+			} else {
+				op.kind, op.nmem = kAtomic, 2+rng.Intn(3)
+			}
+			done++
+			t.ops = append(t.ops, op)
+			continue
+		}
 		if t.D >= 3 && t.K-done >= 3 && rng.Intn(12) == 0 {
 			op.kind = kMulti
 			seen := map[int]bool{}
@@ -357,6 +391,8 @@ func newTrial(r *vlib.Run, mode string, num int, rng *rand.Rand, scale int) *tri
 		op := wop{kind: kDel}
 		if rng.Intn(6) == 0 {
 			op.del = []string{branches[rng.Intn(2)]}
+		} else if nC > 0 && rng.Intn(3) == 0 {
+			op.del = t.leaves[t.D+rng.Intn(nC)].path
 		} else {
 			op.del = t.leaves[pick()].path
 		}
@@ -377,7 +413,7 @@ func newTrial(r *vlib.Run, mode string, num int, rng *rand.Rand, scale int) *tri
 			covering = append(covering, p)
 		}
 	}
-	prefilled := make([]bool, t.D)
+	prefilled := make([]bool, len(t.leaves))
 	for i := range prefilled {
 		prefilled[i] = rng.Intn(10) < 6 || mode == "joinrace"
 	}
@@ -484,7 +520,7 @@ func (t *trial) config() map[string]interface{} {
 	if t.timeout > 0 {
 		to = t.timeout.String()
 	}
-	return map[string]interface{}{"mode": t.mode, "trial": t.num, "gomaxprocs": t.procs, "leaves_D": t.D, "updates_K": t.K, "writer_notifications": len(t.ops), "delete_ops": nd, "send_timeout": to, "timeout_scale": t.scale, "dequeue_max_sleep": t.maxSlp.String(), "subscribers": subs}
+	return map[string]interface{}{"mode": t.mode, "trial": t.num, "gomaxprocs": t.procs, "leaves_D": t.D, "atomic_containers": len(t.leaves) - t.D, "updates_K": t.K, "writer_notifications": len(t.ops), "delete_ops": nd, "send_timeout": to, "timeout_scale": t.scale, "dequeue_max_sleep": t.maxSlp.String(), "subscribers": subs}
 }
 
 // ---- writes ----------------------------------------------------------------
@@ -547,8 +583,30 @@ func (t *trial) updateLeaf(l *leaf, split bool) {
 	t.noteUpdate(l, t.ctr)
 }
 
+// atomicUpdate replaces the whole group of container l: one Atomic notification
+// with m member updates carrying consecutive unique values; the first one
+// identifies the version.
+func (t *trial) atomicUpdate(l *leaf, m int) {
+	t.ts++
+	n := &pb.Notification{Timestamp: t.ts, Atomic: true, Prefix: &pb.Path{Target: target, Elem: gen.Elems(l.path...)}}
+	first := t.ctr + 1
+	for j := 0; j < m; j++ {
+		t.ctr++
+		n.Update = append(n.Update, &pb.Update{Path: gen.Path(false, fmt.Sprintf("m%d", j)), Val: gen.I(t.ctr)})
+	}
+	call := t.now()
+	t.gnmi(n)
+	t.noteTicks(l, call, t.now())
+	t.noteUpdate(l, first)
+	if t.streamPhase {
+		t.atomicWritten++
+	}
+}
+
 func (t *trial) write(op wop) {
 	switch op.kind {
+	case kAtomic:
+		t.atomicUpdate(t.leaves[op.leaves[0]], op.nmem)
 	case kUpd:
 		t.updateLeaf(t.leaves[op.leaves[0]], op.split)
 	case kMulti:
@@ -621,6 +679,8 @@ type rmsg struct {
 	val  int64
 	dup  uint32
 	ok   bool
+
+	atomic bool
 }
 
 func parse(m *pb.SubscribeResponse) rmsg {
@@ -628,6 +688,12 @@ func parse(m *pb.SubscribeResponse) rmsg {
 		return rmsg{sync: true, ok: true}
 	}
 	n := m.GetUpdate()
+	if n != nil && n.Atomic && len(n.Update) >= 1 && len(n.Delete) == 0 {
+		// An atomic group is one leaf at its prefix; the first member identifies
+		// the version and carries the duplicate count.
+		u := n.Update[0]
+		return rmsg{key: model.Key(model.IndexPath(n.GetPrefix())), val: u.GetVal().GetIntVal(), dup: u.GetDuplicates(), atomic: true, ok: true}
+	}
 	if n == nil || len(n.Update)+len(n.Delete) != 1 {
 		return rmsg{}
 	}
@@ -947,7 +1013,11 @@ func (t *trial) run() (sus *suspicion, judged bool) {
 
 	// Prefill (nobody is subscribed yet).
 	for li, p := range t.prefill {
-		if p {
+		switch {
+		case !p:
+		case t.leaves[li].atomic:
+			t.atomicUpdate(t.leaves[li], 2)
+		default:
 			t.updateLeaf(t.leaves[li], false)
 		}
 	}
@@ -1398,6 +1468,7 @@ func (t *trial) run() (sus *suspicion, judged bool) {
 		}
 	}
 	r.Count("stats_callbacks_observed", atomic.LoadInt64(&t.cbCalls))
+	r.Count("atomic_group_updates_written_in_writer_phase", t.atomicWritten)
 	if t.mode == "joinrace" {
 		r.Count("joinrace_producer_pairs_lined_up_at_insert", atomic.LoadInt64(&t.rdvMet))
 	}
@@ -1603,6 +1674,15 @@ func (t *trial) judge(s *sub) bool {
 			dupMsgs++
 			dupTotal += int64(pm.dup)
 		}
+		if pm.atomic {
+			r.Count("atomic_group_responses_observed", 1)
+			if pm.dup > 0 {
+				r.Count("atomic_group_responses_with_duplicates", 1)
+			}
+			if postRelease(i) {
+				r.Count("atomic_group_responses_checked_newest_and_once_after_release", 1)
+			}
+		}
 		if postRelease(i) {
 			// Dequeued after the writer had finished: must be the newest value
 			// of the leaf (of the incarnation the queue entry stands for).
@@ -1740,7 +1820,7 @@ func (t *trial) judge(s *sub) bool {
 			before = q + 1
 		}
 		if before > int64(b) {
-			fail("backlog-bound", fmt.Sprintf("when response #%d was dequeued its queue held %d entries (%d counting the one just dequeued, nothing else being inserted at that time), more than the %d the statement allows (one per offered leaf incarnation + one per delete notification + sync marker; K=%d updates were written)", i, q, before, b, t.K), map[string]interface{}{"bound": b, "queue_size_reported": q, "counted": before})
+			fail("backlog-bound", fmt.Sprintf("when response #%d was dequeued its queue held %d entries (counted as %d: the entry just dequeued counts too once nothing is inserted any more), more than the %d the statement allows (one per offered leaf incarnation + one per delete notification + sync marker; K=%d updates were written)", i, q, before, b, t.K), map[string]interface{}{"bound": b, "queue_size_reported": q, "counted": before})
 			return false
 		}
 	}
@@ -1894,7 +1974,7 @@ func postMerge(tier string, c map[string]int64) []string {
 func main() {
 	vlib.Main(&vlib.Spec{
 		ID:   "C08",
-		Rule: "Each trial: real cache + one subscribe.Server (WithStats, WithClientStatsTest), 2-5 STREAM subscriptions over in-memory streams (one path each from {root,*,a,b,a/*,b/*,*/*}, some updates_only, some updates_only with 2-3 overlapping paths), stall pattern per subscriber in {never, one message (released at a seeded writer step), until-writer-done, permanent} with the held response at a seeded position around the snapshot/sync; one writer goroutine issues K in 10..2000 unique-valued updates over D in 1..50 leaves (single and multi-update notifications, leaf and branch deletes with re-adds), then sentinels; GOMAXPROCS in {2,4,16}; seeded delays at subscribe.dequeue. Modes: stall (default one-minute timeout: clauses 1-4, nobody terminated), timeout (WithTimeout 50-200 ms: permanent stalls must end with the timeout error, idle subscribers survive 3x the timeout), syncstall (the blocked response is the sync_response, timeout 20 ms), idlesync (WithTimeout 50-200 ms, nobody stalled: nothing is written for 4x the timeout right after the sync_responses of the initial and of the late subscriber, then a fresh update must reach everybody), joinrace (K in 200..2000 updates hammer D in 1..3 existing leaves while 3-6 plain subscriptions START at seeded writer steps, each held from its very first response until the writer is done; producers reaching coalesce.insert.checked while a joiner walks are lined up pairwise; offers are bounded by logical call/return ticks; after release each leaf must come at most once and the backlog bound must hold). A late subscriber joins at the end of every trial. A trial is distinct non-trivial when at least one subscriber was really parked inside Send and all subscriber logs were judged; distinct by (mode, D, K, notifications, per-subscriber paths/pattern/gate).",
+		Rule: "Each trial: real cache + one subscribe.Server (WithStats, WithClientStatsTest), 2-5 STREAM subscriptions over in-memory streams (one path each from {root,*,a,b,a/*,b/*,*/*}, some updates_only, some updates_only with 2-3 overlapping paths), stall pattern per subscriber in {never, one message (released at a seeded writer step), until-writer-done, permanent} with the held response at a seeded position around the snapshot/sync; one writer goroutine issues K in 10..2000 unique-valued updates over D in 1..50 leaves (single and multi-update notifications, leaf and branch deletes with re-adds) plus 0-3 atomic containers (1-3 in mode stall) updated repeatedly by Atomic notifications of 2-4 members, in a third of the trials alternating with a scalar written at the container's own path, containers deleted and re-added as well; a container is ONE leaf at its prefix for the offer model, the backlog bound and the duplicate count, then sentinels; GOMAXPROCS in {2,4,16}; seeded delays at subscribe.dequeue. Modes: stall (default one-minute timeout: clauses 1-4, nobody terminated), timeout (WithTimeout 50-200 ms: permanent stalls must end with the timeout error, idle subscribers survive 3x the timeout), syncstall (the blocked response is the sync_response, timeout 20 ms), idlesync (WithTimeout 50-200 ms, nobody stalled: nothing is written for 4x the timeout right after the sync_responses of the initial and of the late subscriber, then a fresh update must reach everybody), joinrace (K in 200..2000 updates hammer D in 1..3 existing leaves while 3-6 plain subscriptions START at seeded writer steps, each held from its very first response until the writer is done; producers reaching coalesce.insert.checked while a joiner walks are lined up pairwise; offers are bounded by logical call/return ticks; after release each leaf must come at most once and the backlog bound must hold). A late subscriber joins at the end of every trial. A trial is distinct non-trivial when at least one subscriber was really parked inside Send and all subscriber logs were judged; distinct by (mode, D, K, notifications, per-subscriber paths/pattern/gate).",
 		Assumptions: []string{
 			"one writer goroutine, strictly increasing timestamps and unique values: every update is accepted and never suppressed, so offers are known exactly",
 			"all initial subscriptions are registered and their snapshot walk is over before the first write of the writer phase (sync_response delivered, or sender parked in the gate and walk end observed; if the walk-end point is not observed the oracle tolerates one walk offer more or less on leaves created/deleted later)",
